@@ -72,6 +72,7 @@ type Resolution struct {
 	AdvSeed   uint64     `json:"adv_seed,omitempty"`
 	Overrides []Override `json:"overrides,omitempty"`
 	T0        int64      `json:"t0,omitempty"`      // simulated clock origin (ns since epoch)
+	Rate      int64      `json:"rate,omitempty"`    // simulated ns per tick (0 = 1000): how fast the machine is
 	Entropy   uint64     `json:"entropy,omitempty"` // seed behind math/rand globals
 }
 
